@@ -423,6 +423,45 @@ def r_bisect(db, rep):
                 else:
                     side, bad = "?", ("pivot end", "(%s, %s)" % (ga, gb), "the pivot")
             rep.inst(f.nloc(lp), "%s: %s-boundary search over %s%s, %s%s" % (f.qn, side, "[" if closed else "(", ga, gb, "]" if closed else ")"))
+            # the guard that decides whether this boundary search runs at all: `pivot > first` / `pivot < last`, where first / last
+            # are the limits the main search started from (for bounds passed by pointer: the values the caller initialised them with)
+            if side in ("left", "right"):
+                def initial_of(bound_path, bound_init):
+                    vals = set()
+                    if bound_init is not None:
+                        vals.add(canon(sb.sym(bound_init)))
+                    if bound_path[0] == "param":
+                        for g in db.funcs.values():
+                            if not g.body:
+                                continue
+                            for c in g.calls():
+                                if c.get("f") == f.id and bound_path[1] < len(c.get("args", [])):
+                                    a = strip(c["args"][bound_path[1]])
+                                    if a["k"] == "UnaryOperator" and a["op"] == "&":
+                                        ap = access_path(g, a["sub"])
+                                        if ap and ap[0] == "local":
+                                            gi = single_def_init(g, ap[1]) or _decl_init(g, ap)
+                                            if gi is not None:
+                                                vals.add(canon(SeqBuilder(db, g, "x", nosubst=True).sym(gi)))
+                    return vals
+                gnode = next((a for a in f.ancestors(lp) if a["k"] == "IfStmt" and a.get("cond") is not None and
+                              any(x is lp for x in walk(a["then"])) and access_path(f, strip(a["cond"]).get("lhs", {})) == c and
+                              strip(a["cond"])["k"] == "BinaryOperator"), None)
+                if gnode is not None:
+                    gc = strip(gnode["cond"])
+                    rep.ob()
+                    want_op = ">" if side == "left" else "<"
+                    lim = canon(SeqBuilder(db, f, "x", nosubst=True).sym(gc["rhs"]))
+                    allowed = initial_of(L if side == "left" else R, initL if side == "left" else initR)
+                    if side == "left":
+                        allowed |= {symL}
+                    else:
+                        allowed |= {symR}
+                    if gc["op"] != want_op or (allowed and lim not in allowed):
+                        rep.viol("%s#%s-guard" % (f.qn, side), f.nloc(gnode),
+                                 "%s runs the %s-boundary search only when pivot %s %s, but the main search started from %s: with the pivot at the "
+                                 "last-but-one (first-but-one) position the neighbouring element is never examined and the range is cut short or "
+                                 "overshoots" % (f.qn, side, gc["op"], lim, " / ".join(sorted(allowed)) or "?"), f.qn)
             rep.ob()
             rep.ob()
             if side == "?":
